@@ -9,9 +9,9 @@ T1_MODULES = {
     "C15": ["vt.contracts.diskdict_effects"],
     "C13": ["vt.contracts.syntactic", "vt.contracts.misc_small", "vt.contracts.cache_key"],
     "C01": ["vt.contracts.legs_rules", "vt.contracts.core_mutators", "vt.contracts.utils_maxcounter", "vt.contracts.einsum_eq", "vt.contracts.tensordot_recipe", "vt.contracts.core_legs", "vt.contracts.core_inds", "vt.contracts.contractor_protocol", "vt.contracts.extract_schedule"],
-    "C02": ["vt.contracts.legs_rules", "vt.contracts.syntactic", "vt.contracts.core_mutators", "vt.contracts.utils_maxcounter", "vt.contracts.core_remove_ind", "vt.contracts.core_reconfigure"],
-    "C03": ["vt.contracts.utils_maxcounter", "vt.contracts.legs_rules", "vt.contracts.core_stats", "vt.contracts.core_legs", "vt.contracts.core_remove_ind"],
-    "C04": ["vt.contracts.utils_maxcounter", "vt.contracts.legs_rules", "vt.contracts.core_stats", "vt.contracts.syntactic", "vt.contracts.core_mutators", "vt.contracts.core_remove_ind"],
+    "C02": ["vt.contracts.legs_rules", "vt.contracts.syntactic", "vt.contracts.core_mutators", "vt.contracts.utils_maxcounter", "vt.contracts.core_remove_ind", "vt.contracts.core_reconfigure", "vt.contracts.core_restore_ind"],
+    "C03": ["vt.contracts.utils_maxcounter", "vt.contracts.legs_rules", "vt.contracts.core_stats", "vt.contracts.core_legs", "vt.contracts.core_remove_ind", "vt.contracts.core_restore_ind", "vt.contracts.core_reconfigure"],
+    "C04": ["vt.contracts.utils_maxcounter", "vt.contracts.legs_rules", "vt.contracts.core_stats", "vt.contracts.syntactic", "vt.contracts.core_mutators", "vt.contracts.core_remove_ind", "vt.contracts.core_restore_ind", "vt.contracts.core_reconfigure"],
     "C06": ["vt.contracts.core_slicing", "vt.contracts.core_remove_ind", "vt.contracts.legs_rules", "vt.contracts.utils_maxcounter", "vt.contracts.slice_arrays"],
     "C07": ["vt.contracts.utils_maxcounter", "vt.contracts.syntactic", "vt.contracts.slicer_costs", "vt.contracts.core_slice"],
     "C05": ["vt.contracts.path_convert", "vt.contracts.processor_legs", "vt.contracts.processor_nodes"],
